@@ -1,3 +1,704 @@
 //! C11 — encoding emits exactly the modelled content in the documented CBOR shape.
-use super::Ex;
-pub fn dup_encode(_ex: &Ex) {}
+//! Also hosts the encode half of C12 (`dup_encode`) and the value palettes shared with C20.
+
+use super::{Ex, Scale};
+use crate::gen::{arr, b, i, map, t, u};
+use crate::mc::{odometer, par_partitions, Local, Report, Viol};
+use crate::refcbor::{hex, read_all, read_exact, Enc, Item, ReadAll, NULL, TRUE};
+use crate::refcose::*;
+use crate::refiana::{self, Reg};
+use crate::subject::{self, Outcome};
+use serde_json::json;
+
+pub fn run(rep: &Report) -> u64 {
+    rep.set_rule("C11: full products of per-field palettes for every type (headers 3240, protected headers with and without retained bytes, the 8 message types with nested signatures/recipients to depth 2, keys 720, key sets, claims sets 2304, party/supp-pub/KDF contexts, labels of every class, all registered values of every registry label type); for each value: to_vec succeeds, the output is definite-length CBOR with shortest heads, an independent parse equals the reference encoding (maps modulo entry order, extras in given relative order, protected slots parsed), and decoding the output returns the original value; non-trivial = values with at least one populated field; distinct by reference encoding + retained bytes");
+    rep.assume("reference encoder (refcose::encode) transliterates the CDDL and the omission rules of the property statement");
+    explore(&Ex::own(rep, crate::oracle::Checks::NONE));
+    1000
+}
+
+// ---------------------------------------------------------------------------------------------
+// Comparison helpers
+
+/// Equality for encoder output: maps modulo entry order except that entries whose key is not one
+/// of the small typed labels 1..=7 must keep their relative order; byte strings that differ are
+/// compared as encoded maps (protected headers).
+pub fn eq_cose(out: &Item, exp: &Item) -> bool {
+    match (out, exp) {
+        (Item::Map(x), Item::Map(y)) => {
+            if x.len() != y.len() {
+                return false;
+            }
+            let mut used = vec![false; x.len()];
+            'outer: for (k, v) in y {
+                for (j, (k2, v2)) in x.iter().enumerate() {
+                    if !used[j] && k == k2 && eq_cose(v2, v) {
+                        used[j] = true;
+                        continue 'outer;
+                    }
+                }
+                return false;
+            }
+            let extra = |m: &Vec<(Item, Item)>| -> Vec<Item> { m.iter().filter(|(k, _)| !matches!(k, Item::UInt(1..=7))).map(|(k, _)| k.clone()).collect() };
+            extra(x) == extra(y)
+        }
+        (Item::Array(x), Item::Array(y)) => x.len() == y.len() && x.iter().zip(y).all(|(p, q)| eq_cose(p, q)),
+        (Item::Tag(a, x), Item::Tag(c, y)) => a == c && eq_cose(x, y),
+        (Item::Bytes(x), Item::Bytes(y)) => {
+            if x == y {
+                return true;
+            }
+            match (read_all(x), read_all(y)) {
+                (ReadAll::One(ex), ReadAll::One(ey)) => {
+                    let (ix, iy) = (ex.item(), ey.item());
+                    matches!(ix, Item::Map(_)) && ex.is_deterministic() && eq_cose(&ix, &iy)
+                }
+                _ => false,
+            }
+        }
+        _ => out == exp,
+    }
+}
+
+/// Replace every `original_data: Some([..])` / `original_data: None` in a Debug string.
+pub fn strip_original(d: &str) -> String {
+    let pat = "original_data: ";
+    let mut out = String::with_capacity(d.len());
+    let mut rest = d;
+    while let Some(p) = rest.find(pat) {
+        out.push_str(&rest[..p + pat.len()]);
+        out.push('_');
+        let after = &rest[p + pat.len()..];
+        if after.starts_with("None") {
+            rest = &after[4..];
+        } else if after.starts_with("Some([") {
+            let end = after.find("])").map(|e| e + 2).unwrap_or(after.len());
+            rest = &after[end..];
+        } else {
+            rest = after;
+        }
+    }
+    out.push_str(rest);
+    out
+}
+
+/// Do all maps in the item (including maps inside byte strings that are exactly one encoded map)
+/// have pairwise distinct keys?
+pub fn all_maps_distinct(i: &Item) -> bool {
+    match i {
+        Item::Map(m) => {
+            for (a, (k, v)) in m.iter().enumerate() {
+                if m[a + 1..].iter().any(|(k2, _)| k2 == k) {
+                    return false;
+                }
+                if !all_maps_distinct(k) || !all_maps_distinct(v) {
+                    return false;
+                }
+            }
+            true
+        }
+        Item::Array(a) => a.iter().all(all_maps_distinct),
+        Item::Tag(_, x) => all_maps_distinct(x),
+        Item::Bytes(bs) => match read_all(bs) {
+            ReadAll::One(e) if matches!(e, Enc::Map(..)) => all_maps_distinct(&e.item()),
+            _ => true,
+        },
+        _ => true,
+    }
+}
+
+// ---------------------------------------------------------------------------------------------
+// Palettes
+
+pub fn l_int(v: i64) -> RLabel {
+    RLabel::Int(v)
+}
+pub fn l_text(s: &str) -> RLabel {
+    RLabel::Text(s.to_string())
+}
+
+pub fn sig_reps() -> Vec<RSignature> {
+    let h_alg = RHeader { alg: Some(l_int(-7)), ..Default::default() };
+    let h_kid = RHeader { key_id: b"11".to_vec(), ..Default::default() };
+    vec![
+        RSignature { protected: RProtected::default(), unprotected: RHeader::default(), signature: vec![] },
+        RSignature { protected: RProtected { original: None, header: h_alg.clone() }, unprotected: h_kid.clone(), signature: b"sig".to_vec() },
+        RSignature {
+            protected: RProtected { original: Some(enc_header(&h_alg).det()), header: h_alg.clone() },
+            unprotected: RHeader { rest: vec![(l_int(99), u(1))], ..Default::default() },
+            signature: vec![0xaa; 24],
+        },
+    ]
+}
+
+pub fn rest_palette() -> Vec<Vec<(RLabel, Item)>> {
+    vec![
+        vec![],
+        vec![(l_int(8), t("x"))],
+        vec![(l_text("a"), NULL), (l_int(-1), u(1))],
+        vec![(l_int(-1), u(1)), (l_text("a"), NULL)],
+        vec![(l_int(300), arr(vec![u(1), map(vec![(u(2), u(1)), (u(1), u(2))])])), (l_int(0), TRUE), (l_int(-70000), Item::float(1.5))],
+    ]
+}
+
+pub fn header_values(full: bool) -> Vec<RHeader> {
+    let algs = [None, Some(l_int(-7)), Some(l_text("t")), Some(l_int(-65537))];
+    let crits: [Vec<RLabel>; 3] = [vec![], vec![l_int(1)], vec![l_int(4), l_text("x")]];
+    let cts = [None, Some(l_int(0)), Some(l_text("a/b"))];
+    let kids: [Vec<u8>; 2] = [vec![], b"k".to_vec()];
+    let ivs: [(Vec<u8>, Vec<u8>); 3] = [(vec![], vec![]), (b"iv".to_vec(), vec![]), (vec![], b"p".to_vec())];
+    let sigs = sig_reps();
+    let css: [Vec<RSignature>; 4] = [vec![], vec![sigs[1].clone()], vec![sigs[0].clone(), sigs[2].clone()], vec![sigs[2].clone(), sigs[1].clone(), sigs[0].clone()]];
+    let rests = rest_palette();
+    let mut out = Vec::new();
+    odometer(&[algs.len(), crits.len(), cts.len(), kids.len(), ivs.len(), css.len(), rests.len()], |d| {
+        if !full {
+            // reduced: at most two non-default fields
+            if d.iter().filter(|x| **x != 0).count() > 2 {
+                return;
+            }
+        }
+        out.push(RHeader {
+            alg: algs[d[0]].clone(),
+            crit: crits[d[1]].clone(),
+            content_type: cts[d[2]].clone(),
+            key_id: kids[d[3]].clone(),
+            iv: ivs[d[4]].0.clone(),
+            partial_iv: ivs[d[4]].1.clone(),
+            counter_signatures: css[d[5]].clone(),
+            rest: rests[d[6]].clone(),
+        });
+    });
+    out
+}
+
+/// A handful of headers for use inside larger structures.
+pub fn header_reps() -> Vec<RHeader> {
+    let s = sig_reps();
+    vec![
+        RHeader::default(),
+        RHeader { alg: Some(l_int(-7)), ..Default::default() },
+        RHeader { counter_signatures: vec![s[1].clone()], ..Default::default() },
+        RHeader { rest: vec![(l_int(8), t("x"))], ..Default::default() },
+        RHeader { alg: Some(l_int(1)), key_id: b"kid".to_vec(), iv: b"iv".to_vec(), content_type: Some(l_int(60)), crit: vec![l_int(4)], rest: vec![(l_text("z"), NULL), (l_int(-1), b(b"\x00"))], ..Default::default() },
+        RHeader { partial_iv: b"p".to_vec(), counter_signatures: vec![s[0].clone(), s[2].clone()], ..Default::default() },
+    ]
+}
+
+/// Protected headers: every representative header without retained bytes, with its deterministic
+/// bytes retained, and with a non-canonical encoding retained; the empty header in its three forms.
+pub fn protected_reps() -> Vec<RProtected> {
+    let mut v = vec![
+        RProtected { original: None, header: RHeader::default() },
+        RProtected { original: Some(vec![]), header: RHeader::default() },
+        RProtected { original: Some(vec![0xa0]), header: RHeader::default() },
+        RProtected { original: Some(vec![0xbf, 0xff]), header: RHeader::default() },
+    ];
+    for h in header_reps().into_iter().skip(1) {
+        v.push(RProtected { original: None, header: h.clone() });
+        let det = enc_header(&h).det();
+        v.push(RProtected { original: Some(det), header: h.clone() });
+        // non-canonical: indefinite-length map with reversed entries
+        if let Item::Map(mut m) = enc_header(&h) {
+            m.reverse();
+            let e = Enc::MapIndef(m.iter().map(|(k, x)| (Enc::canonical(k), Enc::canonical(x))).collect());
+            // reversing changes extras order, so the parsed view differs: recompute it
+            let mut c = Ctx::default();
+            let hdr = header_map(&mut c, &e.item());
+            if c.faults.is_empty() {
+                v.push(RProtected { original: Some(e.to_bytes()), header: hdr });
+            }
+        }
+    }
+    v
+}
+
+pub fn recipient_reps() -> Vec<RRecipient> {
+    let p = protected_reps();
+    let h = header_reps();
+    let r0 = RRecipient { protected: p[0].clone(), unprotected: h[0].clone(), ciphertext: None, recipients: vec![] };
+    let r1 = RRecipient { protected: p[4].clone(), unprotected: h[3].clone(), ciphertext: Some(b"ct".to_vec()), recipients: vec![] };
+    let r2 = RRecipient { protected: p[5].clone(), unprotected: h[1].clone(), ciphertext: Some(vec![]), recipients: vec![r0.clone(), r1.clone()] };
+    let r3 = RRecipient { protected: p[0].clone(), unprotected: h[4].clone(), ciphertext: None, recipients: vec![r2.clone()] };
+    vec![r0, r1, r2, r3]
+}
+
+pub fn key_values(full: bool) -> Vec<RKey> {
+    let ktys = [l_int(1), l_text("t"), l_int(4)];
+    let kids: [Vec<u8>; 2] = [vec![], b"kid".to_vec()];
+    let algs = [None, Some(l_int(-7)), Some(l_text("a"))];
+    let ops: [Vec<RLabel>; 4] = [vec![], vec![l_int(1)], vec![l_int(2), l_int(1)], vec![l_text("x"), l_int(3)]];
+    let ivs: [Vec<u8>; 2] = [vec![], b"iv".to_vec()];
+    let params: Vec<Vec<(RLabel, Item)>> = vec![
+        vec![],
+        vec![(l_int(-1), u(1))],
+        vec![(l_int(-1), u(1)), (l_int(-2), b(b"x")), (l_int(-3), TRUE)],
+        vec![(l_int(6), u(1))],
+        vec![(l_text("z"), NULL), (l_int(100), arr(vec![])), (l_int(-4), b(b"d"))],
+    ];
+    let mut out = Vec::new();
+    odometer(&[ktys.len(), kids.len(), algs.len(), ops.len(), ivs.len(), params.len()], |d| {
+        if !full && d.iter().filter(|x| **x != 0).count() > 2 {
+            return;
+        }
+        let mut key_ops = ops[d[3]].clone();
+        sort_ops(&mut key_ops);
+        out.push(RKey { kty: ktys[d[0]].clone(), key_id: kids[d[1]].clone(), alg: algs[d[2]].clone(), key_ops, base_iv: ivs[d[4]].clone(), params: params[d[5]].clone() });
+    });
+    out
+}
+
+/// key_ops is a set; the reference keeps it in the order of the deterministic encodings so that
+/// the constructed BTreeSet and the reference agree on content (order is not compared).
+pub fn sort_ops(v: &mut Vec<RLabel>) {
+    v.sort_by_key(|l| l.item().det());
+    v.dedup();
+}
+
+pub fn claims_values(full: bool) -> Vec<RClaims> {
+    let iss = [None, Some(String::new()), Some("i".to_string())];
+    let sub = [None, Some("s".to_string())];
+    let aud = [None, Some("a".to_string())];
+    let exp = [None, Some(RTime::Whole(0)), Some(RTime::Whole(i64::MIN)), Some(RTime::Frac(1.5f64.to_bits()))];
+    let nbf = [None, Some(RTime::Whole(i64::MAX))];
+    let iat = [None, Some(RTime::Frac((-0.0f64).to_bits()))];
+    let cti: [Option<Vec<u8>>; 3] = [None, Some(vec![]), Some(b"c".to_vec())];
+    let rests: Vec<Vec<(RLabel, Item)>> = vec![
+        vec![],
+        vec![(l_int(8), map(vec![(u(1), u(2))]))],
+        vec![(l_int(-65537), u(1)), (l_text("t"), NULL)],
+        vec![(l_int(0), u(1)), (l_int(38), u(2)), (l_int(-260), map(vec![]))],
+    ];
+    let mut out = Vec::new();
+    odometer(&[iss.len(), sub.len(), aud.len(), exp.len(), nbf.len(), iat.len(), cti.len(), rests.len()], |d| {
+        if !full && d.iter().filter(|x| **x != 0).count() > 2 {
+            return;
+        }
+        out.push(RClaims {
+            iss: iss[d[0]].clone(),
+            sub: sub[d[1]].clone(),
+            aud: aud[d[2]].clone(),
+            exp: exp[d[3]].clone(),
+            nbf: nbf[d[4]].clone(),
+            iat: iat[d[5]].clone(),
+            cti: cti[d[6]].clone(),
+            rest: rests[d[7]].clone(),
+        });
+    });
+    out
+}
+
+pub fn party_values() -> Vec<RParty> {
+    let ids: [Option<Vec<u8>>; 3] = [None, Some(vec![]), Some(b"id".to_vec())];
+    let nonces = [None, Some(RNonce::Bytes(vec![])), Some(RNonce::Bytes(b"n".to_vec())), Some(RNonce::Int(0)), Some(RNonce::Int(i64::MIN)), Some(RNonce::Int(i64::MAX))];
+    let mut out = Vec::new();
+    odometer(&[ids.len(), nonces.len(), ids.len()], |d| {
+        out.push(RParty { identity: ids[d[0]].clone(), nonce: nonces[d[1]].clone(), other: ids[d[2]].clone() });
+    });
+    out
+}
+
+pub fn supp_pub_values() -> Vec<RSuppPub> {
+    let mut out = Vec::new();
+    for kdl in [0u64, 128, u64::MAX] {
+        for p in protected_reps() {
+            for o in [None, Some(vec![]), Some(b"o".to_vec())] {
+                out.push(RSuppPub { key_data_length: kdl, protected: p.clone(), other: o });
+            }
+        }
+    }
+    out
+}
+
+/// All values of the palette for the type list of DESIGN 4.11.
+pub fn values(ex: &Ex) -> Vec<RVal> {
+    let full = ex.scale != Scale::Small;
+    let mut v: Vec<RVal> = Vec::new();
+    for h in header_values(full) {
+        v.push(RVal::Header(h));
+    }
+    let prot = protected_reps();
+    let hdrs = header_reps();
+    let sigs = sig_reps();
+    let recs = recipient_reps();
+    for p in &prot {
+        v.push(RVal::Protected(RProtected { original: None, header: p.header.clone() }));
+    }
+    let payloads: [Option<Vec<u8>>; 3] = [None, Some(vec![]), Some(b"payload".to_vec())];
+    let blobs: [Vec<u8>; 2] = [vec![], vec![0x5a; 30]];
+    let sig_lists: Vec<Vec<RSignature>> = vec![vec![], vec![sigs[1].clone()], vec![sigs[0].clone(), sigs[2].clone()], vec![sigs[2].clone(), sigs[1].clone(), sigs[0].clone()]];
+    let rec_lists: Vec<Vec<RRecipient>> = vec![vec![], vec![recs[1].clone()], vec![recs[0].clone(), recs[2].clone()], vec![recs[3].clone()]];
+    for p in &prot {
+        for h in &hdrs {
+            for s in &blobs {
+                v.push(RVal::Signature(RSignature { protected: p.clone(), unprotected: h.clone(), signature: s.clone() }));
+            }
+            for pl in &payloads {
+                for s in &blobs {
+                    v.push(RVal::Sign1(RSign1 { protected: p.clone(), unprotected: h.clone(), payload: pl.clone(), signature: s.clone() }));
+                    v.push(RVal::Mac0(RMac0 { protected: p.clone(), unprotected: h.clone(), payload: pl.clone(), tag: s.clone() }));
+                }
+                v.push(RVal::Encrypt0(REncrypt0 { protected: p.clone(), unprotected: h.clone(), ciphertext: pl.clone() }));
+                for sl in &sig_lists {
+                    v.push(RVal::Sign(RSign { protected: p.clone(), unprotected: h.clone(), payload: pl.clone(), signatures: sl.clone() }));
+                }
+                for rl in &rec_lists {
+                    v.push(RVal::Encrypt(REncrypt { protected: p.clone(), unprotected: h.clone(), ciphertext: pl.clone(), recipients: rl.clone() }));
+                    v.push(RVal::Recipient(RRecipient { protected: p.clone(), unprotected: h.clone(), ciphertext: pl.clone(), recipients: rl.clone() }));
+                    v.push(RVal::Mac(RMac { protected: p.clone(), unprotected: h.clone(), payload: pl.clone(), tag: blobs[1].clone(), recipients: rl.clone() }));
+                }
+            }
+        }
+    }
+    let keys = key_values(full);
+    for k in &keys {
+        v.push(RVal::Key(k.clone()));
+    }
+    v.push(RVal::KeySet(vec![]));
+    v.push(RVal::KeySet(vec![keys[0].clone()]));
+    v.push(RVal::KeySet(vec![keys[1].clone(), keys[keys.len() - 1].clone(), keys[keys.len() / 2].clone()]));
+    for c in claims_values(full) {
+        v.push(RVal::Claims(c));
+    }
+    let parties = party_values();
+    for p in &parties {
+        v.push(RVal::Party(p.clone()));
+    }
+    let supps = supp_pub_values();
+    for s in &supps {
+        v.push(RVal::SuppPub(s.clone()));
+    }
+    for alg in [l_int(-7), l_int(1), l_int(-65535)] {
+        for (pi, p) in parties.iter().enumerate().step_by(5) {
+            for s in supps.iter().step_by(7) {
+                for priv_ in [vec![], vec![b"p".to_vec()], vec![b"p".to_vec(), vec![]]] {
+                    v.push(RVal::Kdf(RKdf { alg: alg.clone(), u: p.clone(), v: parties[(pi * 7 + 3) % parties.len()].clone(), supp_pub: s.clone(), supp_priv: priv_ }));
+                }
+            }
+        }
+    }
+    // labels of every class
+    for x in crate::gen::label_ints(false) {
+        v.push(RVal::Label(l_int(x)));
+    }
+    for s in crate::gen::label_texts(false) {
+        v.push(RVal::Label(RLabel::Text(s)));
+    }
+    for rt in REG_TYS {
+        for (_, val) in refiana::table(rt.reg) {
+            v.push(RVal::RegLabel(rt, l_int(*val)));
+        }
+        if rt.with_private {
+            for p in [-65537i64, -65538, -(1 << 31), i64::MIN] {
+                v.push(RVal::RegLabel(rt, l_int(p)));
+            }
+        }
+        for s in ["", "a", "text label"] {
+            v.push(RVal::RegLabel(rt, l_text(s)));
+        }
+    }
+    for tm in [RTime::Whole(0), RTime::Whole(-1), RTime::Whole(i64::MAX), RTime::Whole(i64::MIN), RTime::Frac(1.5f64.to_bits()), RTime::Frac(1.0e300f64.to_bits()), RTime::Frac(f64::INFINITY.to_bits())] {
+        v.push(RVal::Timestamp(tm));
+    }
+    let _ = Reg::Algorithm;
+    v
+}
+
+// ---------------------------------------------------------------------------------------------
+
+fn viol(pid: &str, what: &str, rv: &RVal, expected: String, observed: String) -> Viol {
+    Viol { key: format!("{}:{}:{:?}", pid, what, rv.ty()), space: "c11.values".into(), case: format!("{:?}", rv), direct: None, expected, observed }
+}
+
+pub fn check_value(pid: &str, rv: &RVal, l: &mut Local) {
+    let case = format!("{:?}", rv);
+    if let Ok(only) = std::env::var("VERIF_ONLY_CASE") {
+        if only != case {
+            return;
+        }
+    }
+    l.evaluations += 1;
+    let exp = encode(rv);
+    // model sanity: the reference decoder accepts the reference encoding
+    match decode(rv.ty(), &exp) {
+        Verdict::Accept(_) | Verdict::Unspecified(_) => {}
+        Verdict::Reject { faults, .. } => {
+            l.viol(viol(pid, "MODEL-palette-value-not-well-formed", rv, "reference accepts its own encoding".into(), format!("{:?}", faults)));
+            return;
+        }
+    }
+    let subj = match subject::construct(rv) {
+        Ok(Some(s)) => s,
+        Ok(None) => return,
+        Err(e) => {
+            l.viol(viol(pid, "cannot-construct", rv, "constructible".into(), e));
+            return;
+        }
+    };
+    l.impl_checked += 1;
+    if exp != Item::Map(vec![]) && exp != Item::Array(vec![]) {
+        l.nontrivial(&(exp.det(), format!("{:?}", rv).len()));
+    }
+    let bytes = match subj.to_vec() {
+        Outcome::Ok(x) => x,
+        o => {
+            l.viol(viol(pid, "encode-failed", rv, "to_vec Ok".into(), o.brief()));
+            return;
+        }
+    };
+    let e = match read_exact(&bytes) {
+        Ok(e) => e,
+        Err(err) => {
+            l.viol(viol(pid, "output-not-cbor", rv, "one well-formed CBOR item".into(), format!("{}: {}", err, hex(&bytes))));
+            return;
+        }
+    };
+    if !e.is_deterministic() {
+        l.viol(viol(pid, "output-not-definite-shortest", rv, "definite lengths and shortest heads".into(), hex(&bytes)));
+    }
+    let out = e.item();
+    if !eq_cose(&out, &exp) {
+        l.viol(viol(pid, "output-differs", rv, format!("{:?}", exp), format!("{:?}", out)));
+    }
+    // decoding the output returns the original value
+    match subject::decode(rv.ty(), &bytes) {
+        Outcome::Ok(v2) => {
+            let (a, bb) = (strip_original(&v2.debug()), strip_original(&subj.debug()));
+            if a != bb {
+                l.viol(viol(pid, "decode-of-output-differs", rv, bb, a));
+            }
+        }
+        o => l.viol(viol(pid, "decode-of-output-failed", rv, "Ok".into(), o.brief())),
+    }
+    if let Some(t) = subj.to_tagged_vec() {
+        match t {
+            Outcome::Ok(tb) => {
+                let tag = tag_of(rv.ty()).unwrap();
+                match read_exact(&tb) {
+                    Ok(te) => {
+                        if !eq_cose(&te.item(), &Item::tag(tag, exp.clone())) || !te.is_deterministic() {
+                            l.viol(viol(pid, "tagged-output-differs", rv, format!("{}({:?})", tag, exp), format!("{:?}", te.item())));
+                        }
+                    }
+                    Err(err) => l.viol(viol(pid, "tagged-output-not-cbor", rv, "well-formed".into(), err)),
+                }
+            }
+            o => l.viol(viol(pid, "tagged-encode-failed", rv, "Ok".into(), o.brief())),
+        }
+    }
+}
+
+pub fn explore(ex: &Ex) {
+    let vals = values(ex);
+    ex.bound("c11.values", "values", json!(vals.len()));
+    let chunks: Vec<&[RVal]> = vals.chunks(256).collect();
+    par_partitions(ex.rep, chunks, |chunk, l| {
+        for rv in chunk.iter() {
+            l.state(1);
+            if l.samples.is_empty() {
+                l.sample(|| json!({"space": "c11.values", "value": crate::mc::truncate(&format!("{:?}", rv), 300), "reference_encoding": hex(&encode(rv).det())}));
+            }
+            check_value(ex.pid, rv, l);
+        }
+    });
+}
+
+// ---------------------------------------------------------------------------------------------
+// C12, encode side
+
+/// In-memory headers, keys and claims sets that would put a label into their map twice.
+fn colliding_values(full: bool) -> Vec<(RVal, &'static str)> {
+    // (value, collides?) — control cases (typed field not populated) do not collide
+    let mut v: Vec<(RVal, &'static str)> = Vec::new();
+    let labels = [l_int(8), l_int(-1), l_text("a"), l_int(i64::MIN), l_int(0), l_int(300)];
+    // (a) two equal extra labels at every pair of positions among 2..4 extras
+    for n in 2..=4usize {
+        for p1 in 0..n {
+            for p2 in (p1 + 1)..n {
+                for dup in &labels {
+                    let mut rest: Vec<(RLabel, Item)> = Vec::new();
+                    let mut k = 0;
+                    for pos in 0..n {
+                        if pos == p1 || pos == p2 {
+                            rest.push((dup.clone(), u(pos as u64)));
+                        } else {
+                            rest.push((l_int(1000 + k), u(0)));
+                            k += 1;
+                        }
+                    }
+                    v.push((RVal::Header(RHeader { rest: rest.clone(), ..Default::default() }), "extras"));
+                    v.push((RVal::Key(RKey { kty: l_int(1), key_id: vec![], alg: None, key_ops: vec![], base_iv: vec![], params: rest.clone() }), "extras"));
+                    let crest: Vec<(RLabel, Item)> = rest
+                        .iter()
+                        .map(|(l, x)| {
+                            // claim names must be registered / private / text
+                            let l2 = match l {
+                                RLabel::Int(1000) => l_int(8),
+                                RLabel::Int(1001) => l_int(9),
+                                RLabel::Int(8) => l_int(38),
+                                RLabel::Int(-1) => l_int(-65537),
+                                RLabel::Int(300) => l_int(39),
+                                RLabel::Int(0) => l_int(0),
+                                other => other.clone(),
+                            };
+                            (l2, x.clone())
+                        })
+                        .collect();
+                    v.push((RVal::Claims(RClaims { rest: crest, ..Default::default() }), "extras"));
+                }
+                if !full {
+                    break;
+                }
+            }
+        }
+    }
+    // (b) an extra label equal to a typed label, with the typed field populated / not populated
+    let sig = sig_reps()[1].clone();
+    for populated in [true, false] {
+        for typed in 1..=7i64 {
+            let mut h = RHeader::default();
+            if populated {
+                match typed {
+                    1 => h.alg = Some(l_int(-7)),
+                    2 => h.crit = vec![l_int(1)],
+                    3 => h.content_type = Some(l_int(0)),
+                    4 => h.key_id = b"k".to_vec(),
+                    5 => h.iv = b"i".to_vec(),
+                    6 => h.partial_iv = b"p".to_vec(),
+                    _ => h.counter_signatures = vec![sig.clone()],
+                }
+            }
+            for extra_pos in [0usize, 1] {
+                let mut rest = vec![(l_int(1000), u(0))];
+                rest.insert(extra_pos, (l_int(typed), NULL));
+                let mut hh = h.clone();
+                hh.rest = rest;
+                v.push((RVal::Header(hh), if populated { "typed-field" } else { "control" }));
+            }
+        }
+        for typed in 1..=5i64 {
+            let mut k = RKey { kty: l_int(1), key_id: vec![], alg: None, key_ops: vec![], base_iv: vec![], params: vec![] };
+            if populated {
+                match typed {
+                    1 => {}
+                    2 => k.key_id = b"k".to_vec(),
+                    3 => k.alg = Some(l_int(-7)),
+                    4 => k.key_ops = vec![l_int(1)],
+                    _ => k.base_iv = b"i".to_vec(),
+                }
+            }
+            k.params = vec![(l_int(typed), NULL), (l_int(-1), u(1))];
+            // kty is always emitted, so label 1 always collides
+            v.push((RVal::Key(k), if populated || typed == 1 { "typed-field" } else { "control" }));
+        }
+        for typed in 1..=7i64 {
+            let mut c = RClaims::default();
+            if populated {
+                match typed {
+                    1 => c.iss = Some("i".into()),
+                    2 => c.sub = Some("s".into()),
+                    3 => c.aud = Some("a".into()),
+                    4 => c.exp = Some(RTime::Whole(1)),
+                    5 => c.nbf = Some(RTime::Whole(1)),
+                    6 => c.iat = Some(RTime::Whole(1)),
+                    _ => c.cti = Some(b"c".to_vec()),
+                }
+            }
+            c.rest = vec![(l_int(8), u(0)), (l_int(typed), NULL)];
+            v.push((RVal::Claims(c), if populated { "typed-field" } else { "control" }));
+        }
+    }
+    v
+}
+
+/// Embed a header in every in-memory carrier.
+fn embed_header(h: &RHeader) -> Vec<RVal> {
+    let p = RProtected { original: None, header: h.clone() };
+    let e = RHeader::default();
+    let sig_p = RSignature { protected: p.clone(), unprotected: e.clone(), signature: vec![] };
+    let sig_u = RSignature { protected: RProtected::default(), unprotected: h.clone(), signature: vec![] };
+    let rec_p = RRecipient { protected: p.clone(), unprotected: e.clone(), ciphertext: None, recipients: vec![] };
+    let rec_u = RRecipient { protected: RProtected::default(), unprotected: h.clone(), ciphertext: None, recipients: vec![] };
+    vec![
+        RVal::Sign1(RSign1 { protected: p.clone(), ..Default::default() }),
+        RVal::Sign1(RSign1 { unprotected: h.clone(), ..Default::default() }),
+        RVal::Sign(RSign { signatures: vec![sig_p.clone()], ..Default::default() }),
+        RVal::Sign(RSign { signatures: vec![RSignature::default(), sig_u.clone()], ..Default::default() }),
+        RVal::Mac(RMac { recipients: vec![rec_p.clone()], ..Default::default() }),
+        RVal::Mac0(RMac0 { unprotected: h.clone(), ..Default::default() }),
+        RVal::Encrypt(REncrypt { recipients: vec![RRecipient { recipients: vec![rec_u.clone()], ..Default::default() }], ..Default::default() }),
+        RVal::Encrypt0(REncrypt0 { protected: p.clone(), ..Default::default() }),
+        RVal::Recipient(rec_u.clone()),
+        RVal::Signature(sig_p.clone()),
+        RVal::Header(RHeader { counter_signatures: vec![sig_u.clone()], ..Default::default() }),
+        RVal::Header(RHeader { counter_signatures: vec![RSignature::default(), sig_p.clone()], ..Default::default() }),
+        RVal::SuppPub(RSuppPub { key_data_length: 1, protected: p.clone(), other: None }),
+        RVal::Protected(p.clone()),
+    ]
+}
+
+pub fn dup_encode(ex: &Ex) {
+    let vals = colliding_values(ex.scale != Scale::Small);
+    ex.bound("c12.encode", "values", json!(vals.len()));
+    // (value, class, map kind, direct|embedded)
+    let mut all: Vec<(RVal, &'static str, &'static str, &'static str)> = Vec::new();
+    for (rv, class) in vals {
+        match &rv {
+            RVal::Header(h) => {
+                for e in embed_header(h) {
+                    all.push((e, class, "Header", "embedded"));
+                }
+                all.push((rv, class, "Header", "direct"));
+            }
+            RVal::Key(k) => {
+                all.push((RVal::KeySet(vec![RKey { kty: l_int(2), key_id: vec![], alg: None, key_ops: vec![], base_iv: vec![], params: vec![] }, k.clone()]), class, "Key", "embedded"));
+                all.push((rv, class, "Key", "direct"));
+            }
+            _ => all.push((rv, class, "Claims", "direct")),
+        }
+    }
+    let chunks: Vec<&[(RVal, &'static str, &'static str, &'static str)]> = all.chunks(64).collect();
+    par_partitions(ex.rep, chunks, |chunk, l| {
+        for (rv, class, map_kind, how) in chunk.iter() {
+            let case = format!("{:?}", rv);
+            if let Ok(only) = std::env::var("VERIF_ONLY_CASE") {
+                if only != case {
+                    continue;
+                }
+            }
+            l.state(1);
+            l.evaluations += 1;
+            let subj = match subject::construct(rv) {
+                Ok(Some(s)) => s,
+                _ => continue,
+            };
+            l.impl_checked += 1;
+            let collides = *class != "control";
+            l.count(&format!("c12.encode.{}", class));
+            if collides {
+                l.nontrivial(&case);
+            }
+            if l.samples.is_empty() && collides {
+                l.sample(|| json!({"space": "c12.encode", "class": class, "value": crate::mc::truncate(&case, 300)}));
+            }
+            let mk = |what: &str, expected: String, observed: String| Viol { key: format!("C12:{}:{}:{}", what, map_kind, class), space: "c12.encode".into(), case: case.clone(), direct: None, expected, observed };
+            match subj.to_vec() {
+                Outcome::Panic(p) => l.viol(mk("encode-panic", "Ok or Err".into(), p)),
+                Outcome::Err(_) => {
+                    l.count("c12.encode.refused");
+                    if !collides {
+                        l.viol(mk("encode-refuses-distinct-labels", "Ok (no label repeated)".into(), "Err".into()));
+                    }
+                }
+                Outcome::Ok(bytes) => match read_exact(&bytes) {
+                    Ok(e) => {
+                        if !all_maps_distinct(&e.item()) {
+                            l.viol(mk("encode-emits-duplicate", format!("encoding fails, or every map has pairwise distinct keys ({})", how), format!("{} = {:?}", hex(&bytes), e.item())));
+                        }
+                    }
+                    Err(err) => l.viol(mk("encode-output-not-cbor", "well-formed".into(), err)),
+                },
+            }
+        }
+    });
+}
